@@ -537,6 +537,11 @@ func (h h6) Gen(prop, tier string, r *simrt.Rng) (any, simrt.Config) {
 		c.Input = &InputExpect{Kind: "rate", Input: s, Spelled: spelled, SpelledN: n, SpelledIvNs: iv}
 		if spelled && iv > 0 && iv <= int64(time.Second) {
 			c.MaxDurationNs = iv*int64(2+r.Intn(4)) + 10*ms + odd(r)
+			if r.Intn(5) == 0 {
+				// an earlier run in the same process used jitter and another rate: the string still means what it spells
+				c.Runs = 2
+				c.Flags1 = map[string]string{"rate": "3/50ms", "distribution": simrt.Pick(r, "none", "regular"), "jitter": simrt.Pick(r, "50", "90")}
+			}
 		}
 		if r.Intn(4) == 0 {
 			c.Mode = "ramp"
@@ -603,6 +608,12 @@ func (h h6) Gen(prop, tier string, r *simrt.Rng) (any, simrt.Config) {
 		c.Mode = "file"
 		doc, exp := genFileDoc(r, 0, false)
 		c.Input = &InputExpect{Kind: "yaml", WellFormed: true}
+		if r.Intn(12) == 0 {
+			// the read itself fails: the path names a directory (opens, cannot be read) or nothing at all
+			c.FilePathKind = simrt.Pick(r, "dir", "dir", "missing")
+			c.Input.WellFormed, c.Input.Mutation = false, "unreadable-path-"+c.FilePathKind
+			c.Driver = simrt.Pick(r, "api", "cli")
+		}
 		switch r.Intn(6) {
 		case 0: // drop a field somewhere
 			c.Input.WellFormed = false
